@@ -2109,3 +2109,140 @@ func ruleP19(r *Run) {
 		}
 	}
 }
+
+// ---------------------------------------------------------------------------------------------------
+// G38 handlers are not identified by their code pointer        (reports a known finding on the pinned tree)
+// L13 no connect while the pool lock is held                   (reports known findings on the pinned tree)
+
+func init() {
+	register("G38", "an installed handler is not identified by reflect.Value.Pointer() of the function value: that is the CODE pointer, which all method values of one method (a.InvokeHandler, b.InvokeHandler) and all closures of one function literal share - Unuse(b.InvokeHandler) then also removes a's handler, Unuse of one plugin object removes every other plugin object of the same shape (the log plugin takes the circuit breaker with it)", 1, ruleG38)
+	register("L13", "a client transport does not connect (dial, TLS/websocket handshake, the user's OnConnect hook) while it holds the lock of its connection pool: the lock is shared by all servers and all calls of the client, so one slow or hanging connect delays every other call - also calls to healthy servers over open connections - beyond their own time-outs", 3, ruleL13)
+}
+
+func ruleG38(r *Run) {
+	p := r.P
+	pkg := p.Pkg("rpc/core")
+	if pkg == nil {
+		r.Undec("package rpc/core", 0, "not found")
+		return
+	}
+	info := pkg.TypesInfo
+	n := 0
+	for _, file := range pkg.Syntax {
+		for _, d := range file.Decls {
+			fd, ok := d.(*ast.FuncDecl)
+			if !ok || fd.Body == nil {
+				continue
+			}
+			defs := localDefs(info, fd.Body)
+			// is e (through a local) reflect.ValueOf(<handler>).Pointer()?
+			var isCodePtr func(e ast.Expr, depth int) bool
+			isCodePtr = func(e ast.Expr, depth int) bool {
+				e = ast.Unparen(e)
+				if o := identObj(info, e); o != nil && depth < 3 {
+					if d, ok := defs[o]; ok && d != nil {
+						return isCodePtr(d, depth+1)
+					}
+				}
+				c, ok := e.(*ast.CallExpr)
+				if !ok || methodName(c) != "Pointer" || FullNameOf(info, c) != "reflect.Value.Pointer" {
+					return false
+				}
+				se, ok := ast.Unparen(c.Fun).(*ast.SelectorExpr)
+				if !ok {
+					return false
+				}
+				vc, ok := ast.Unparen(se.X).(*ast.CallExpr)
+				if !ok || FullNameOf(info, vc) != "reflect.ValueOf" || len(vc.Args) != 1 {
+					return false
+				}
+				// the argument is a handler: PluginHandler (interface{}) or a func type
+				t := info.TypeOf(vc.Args[0])
+				if t == nil {
+					return false
+				}
+				if _, isSig := t.Underlying().(*types.Signature); isSig {
+					return true
+				}
+				return strings.HasSuffix(t.String(), "PluginHandler")
+			}
+			k := 0
+			ast.Inspect(fd.Body, func(m ast.Node) bool {
+				be, ok := m.(*ast.BinaryExpr)
+				if !ok || (be.Op != token.EQL && be.Op != token.NEQ) {
+					return true
+				}
+				if isCodePtr(be.X, 0) && isCodePtr(be.Y, 0) {
+					n++
+					k++
+					r.Viol(fmt.Sprintf("handler identity by code pointer in %s #%d", p.DeclName(fd), k), be.Pos(), "`"+types.ExprString(be)+"` decides whether two handlers are the same by reflect.Value.Pointer(), the code pointer of the function value: every method value of the same method and every closure of the same literal compares equal, so removing one handler removes all of them (Use(a.H, b.H); Unuse(b.H) leaves an empty chain; Unuse(logPlugin) removes the breaker)")
+				}
+				return true
+			})
+		}
+	}
+	if n == 0 {
+		r.Ok("no handler is identified by its code pointer", 0, "no comparison of reflect.ValueOf(handler).Pointer() values in rpc/core")
+	}
+}
+
+func ruleL13(r *Run) {
+	p := r.P
+	for _, tr := range []string{"rpc/socket", "rpc/udp", "rpc/websocket"} {
+		fd, pkg := p.DeclOf(tr, "Transport.getConn")
+		key := "connect outside the pool lock in " + tr + ".Transport.getConn"
+		if fd == nil {
+			r.Undec(key, 0, "not found")
+			continue
+		}
+		info := pkg.TypesInfo
+		// does a repository function (transitively) dial?
+		dials := func(call *ast.CallExpr) bool {
+			found := false
+			p.deepInspect(info, call, 3, func(ci *types.Info, n ast.Node) bool {
+				if c, ok := n.(*ast.CallExpr); ok {
+					if f := Callee(ci, c); f != nil && f.Pkg() != nil && !p.InRepo(f) && strings.HasPrefix(f.Name(), "Dial") {
+						found = true
+					}
+				}
+				return true
+			})
+			return found
+		}
+		// the write lock of the pool: <x>.lock.Lock() followed by a deferred or later Unlock
+		var lockPos, unlockPos token.Pos
+		deferred := false
+		ast.Inspect(fd.Body, func(m ast.Node) bool {
+			switch x := m.(type) {
+			case *ast.DeferStmt:
+				if methodName(x.Call) == "Unlock" {
+					deferred = true
+				}
+			case *ast.CallExpr:
+				if methodName(x) == "Lock" && lockPos == 0 {
+					lockPos = x.Pos()
+				}
+				if methodName(x) == "Unlock" && lockPos != 0 && unlockPos == 0 && !deferred {
+					unlockPos = x.Pos()
+				}
+			}
+			return true
+		})
+		if lockPos == 0 {
+			r.Undec(key, fd.Pos(), "the pool lock is not taken in getConn")
+			continue
+		}
+		under := ""
+		ast.Inspect(fd.Body, func(m ast.Node) bool {
+			c, ok := m.(*ast.CallExpr)
+			if !ok || c.Pos() < lockPos || (!deferred && unlockPos != 0 && c.Pos() > unlockPos) {
+				return true
+			}
+			if f := Callee(info, c); f != nil && p.InRepo(f) && dials(c) && under == "" {
+				under = types.ExprString(c.Fun)
+			}
+			return true
+		})
+		r.Check(under == "", key, fd.Pos(), "no dialing call between Lock and Unlock", "getConn calls "+under+", which connects to the server (dial, handshake, OnConnect hook), while it holds the write lock of the connection pool: the lock serialises all servers and all calls of this client, so a connect that hangs makes a call to a healthy server over an open connection wait as well - a call with a 300 ms time-out returned after 2.7 s")
+	}
+}
